@@ -11,6 +11,7 @@ import WindVerif.Drv.TmpPool
 import WindVerif.Drv.Pool
 import WindVerif.Drv.FMap
 import WindVerif.Drv.Storage
+import WindVerif.Drv.ForkFile
 open WindVerif.Drv
 
 def machines : List (String × Machine) := [
@@ -30,7 +31,8 @@ def machines : List (String × Machine) := [
   ("tmppool", tmppoolMachine),
   ("pool", poolMachine),
   ("fmap", fmapMachine),
-  ("storage", storageMachine)
+  ("storage", storageMachine),
+  ("forkfile", forkfileMachine)
 ]
 
 def main (args : List String) : IO UInt32 := do
